@@ -3,6 +3,7 @@
   or the compiled `mtvdriver`.  One request per line on stdin, one response per line on stdout.
 -/
 import MTVerif.Driver.Codec
+import MTVerif.Model.TdSize
 namespace MT
 open Sexp
 
@@ -38,6 +39,12 @@ def handle (st : DState) (req : Sexp) : Except String (DState × Sexp) :=
       .ok (st, sexpOfTy (tdToDict (← tyOf t)))
   | .list (.atom "mkUnion" :: ts) => do
       .ok (st, sexpOfTy (mkUnion (← ts.mapM tyOf)))
+  | .list [.atom "tdOk", k, t] => do
+      .ok (st, sexpOfBool ((← tyOf t).tdOk (← natOf k)))
+  | .list [.atom "hasTD", t] => do
+      .ok (st, sexpOfBool (← tyOf t).hasTD)
+  | .list [.atom "wfTy", t] => do
+      .ok (st, sexpOfBool (← tyOf t).wf)
   | .list [.atom "wf", v] => do
       .ok (st, sexpOfBool (← valOf v).wf)
   | _ => .error "unknown request"
